@@ -277,6 +277,8 @@ pub enum ClientOp {
     Call { h: u16, work: Vec<Step> },
     /// start a call, poll it `polls` times, then drop the future (client-side timeout / select!)
     CallDrop { h: u16, work: Vec<Step>, polls: u8 },
+    /// start a send, poll it `polls` times, then drop the future
+    SendDrop { h: u16, work: Vec<Step>, polls: u8 },
     /// a send whose future is polled `extra` more times than it is woken (spurious polls are allowed by the Future contract)
     SendRepoll { h: u16, work: Vec<Step>, extra: u8 },
     /// create a join future, poll it once and keep it alive (a stalled `select!` arm) until the client ends
